@@ -524,6 +524,17 @@ func unitsOf(s nextroute.Solution, pred func(nextroute.SolutionPlanUnit) bool) [
 	}
 	add(s.PlannedPlanUnits())
 	add(s.UnPlannedPlanUnits())
+	// fixed units too: an operation on them (or on one of their members) has to be refused
+	add(s.FixedPlanUnits())
+	seen := map[int]bool{}
+	uniq := out[:0]
+	for _, u := range out {
+		if !seen[u.ModelPlanUnit().Index()] {
+			seen[u.ModelPlanUnit().Index()] = true
+			uniq = append(uniq, u)
+		}
+	}
+	out = uniq
 	sort.Slice(out, func(i, j int) bool { return out[i].ModelPlanUnit().Index() < out[j].ModelPlanUnit().Index() })
 	return out
 }
